@@ -11,11 +11,13 @@ TECHNIQUE = ("Lean 4 theorems over an executable model of the mutable-file conte
              "TransformingUploadable.read, the SDMF re-encode update, Retrieve's partial-read trimming); "
              "differential correspondence of seeded operation histories on real MutableFileNodes in the in-process "
              "grid (both formats, small segment sizes, seeded delivery order) and of TransformingUploadable.read / "
-             "setup_encoding_parameters / _do_update_update on crafted inputs against the Lean driver; "
+             "setup_encoding_parameters / _do_update_update / Retrieve._decode_blocks (real zfec shares, ranged-read "
+             "setup) on crafted inputs against the Lean driver; "
              "implementation-side monitor against a bytearray")
-LEVEL_TEXT = ("update = splice, TransformingUploadable.read = the segments of the splice, history refinement to the "
-              "byte-string fold and read(offset,size) = slice are proved in Lean for all contents, offsets, lengths "
-              "and segment sizes; the model is tied to the code by comparing every operation outcome "
+LEVEL_TEXT = ("update = splice (also pointwise: only the written bytes change), TransformingUploadable.read = the segments "
+              "of the splice with the updater's and publisher's own start/end segments, history refinement to the "
+              "byte-string fold, read(offset,size) = slice after every history, and _decode_blocks = stored segment are "
+              "proved in Lean for all contents, offsets, lengths, k and segment sizes, both formats; the model is tied to the code by comparing every operation outcome "
               "(ok/refusal kind, segment size, length) and every read of seeded histories, and the segment "
               "arithmetic at function level.")
 LEVEL_NOTE = ("Lean kernel + standard axioms; the model is a hand transcription tied by correspondence; FEC/AES/"
@@ -564,6 +566,65 @@ def rng_impl(c):
     return "%d %d" % r
 
 
+def dec_case(rng):
+    """One segment of a file encoded as the publisher does, decoded by Retrieve._decode_blocks set up for a
+    ranged read (so that `_last_segment` and the file's last segment differ in most cases)."""
+    k = rng.choice([1, 2, 3, 4])
+    n = k + rng.randrange(0, 3)
+    seg = next_multiple(rng.choice([1, 4, 5, 6, 8, 9, 16]), k)
+    nseg = rng.choice([1, 2, 2, 3, 4, 5])
+    dl = max(1, nseg * seg - rng.choice([0, 0, 1, 2, seg - 1, rng.randrange(0, seg)]))
+    nseg = -(-dl // seg)
+    off = rng.randrange(0, dl)
+    size = rng.choice([1, dl - off, rng.randrange(1, dl - off + 1)])
+    first, last = off // seg, (off + size - 1) // seg
+    segnum = rng.choice([first, last, rng.randrange(first, last + 1)])
+    return {"kind": "dec", "k": k, "n": n, "seg": seg, "content": rbytes(rng, dl).hex(), "off": off, "size": size,
+            "segnum": segnum, "pick": rng.randrange(1 << 20)}
+
+
+def dec_impl(ctx, c):
+    import grid  # noqa: F401  (disables the CPU thread pool: defer_to_thread runs inline)
+    from allmydata.mutable.retrieve import Retrieve, RetrieveStatus
+    from allmydata import codec
+    content = bytes.fromhex(c["content"])
+    dl, seg, k, n, sn = len(content), c["seg"], c["k"], c["n"], c["segnum"]
+    nseg = -(-dl // seg)
+    # publisher side (_encode_segment): pieces of get_block_size() bytes, the last one zero-padded
+    data = content[sn * seg:(sn + 1) * seg]
+    fec = codec.CRSEncoder()
+    fec.set_params(len(data) if sn == nseg - 1 else seg, k, n)
+    ps = fec.get_block_size()
+    pieces = [data[i * ps:(i + 1) * ps].ljust(ps, b"\x00") for i in range(k)]
+    box = []
+    fec.encode(pieces).addCallback(box.append)
+    shares, ids = box[0]
+    pick = random.Random(c["pick"]).sample(range(len(ids)), k)
+    blocks = {ids[i]: (shares[i], b"salt" * 4) for i in pick}
+    r = Retrieve.__new__(Retrieve)
+    r._log_number = None
+    r._status = RetrieveStatus()
+    r.verinfo = (1, b"r" * 32, b"", seg, dl, k, n, b"", ())
+    r._data_length = dl
+    r._offset, r._read_length = c["off"], c["size"]
+    r._setup_encoding_parameters()
+    out = []
+    joined = []
+    dec = r._tail_decoder if sn == r._num_segments - 1 else r._segment_decoder
+    dec.decode([blocks[i][0] for i in blocks], list(blocks)).addCallback(lambda bufs: joined.append(sum(len(b) for b in bufs)))
+    r._decode_blocks([blocks], sn).addCallbacks(out.append, out.append)
+    if not out or not isinstance(out[0], tuple):
+        return "EXC:%r" % (out[:1],)
+    segment = out[0][0]
+    if segment != data:     # monitor: a segment read back is the segment written (every read is made of these)
+        ctx.violation("Retrieve._decode_blocks does not return the stored segment", c, "decode-blocks-trim",
+                      {"got": segment.hex(), "want": data.hex(), "last_segment": r._last_segment,
+                       "num_segments": r._num_segments})
+    ctx.case(("DEC", seg, k, dl, sn, r._last_segment) if nseg > 1 else None)
+    ctx.count("dec:" + ("tail" if sn == nseg - 1 else "last-requested-non-tail" if sn == r._last_segment else "inner"))
+    return "%d %s" % (joined[0] if joined else -1, hx(segment))
+
+
 # ----------------------------------------------------------------------------- run
 
 _QUIET = []
@@ -586,11 +647,13 @@ def run(ctx):
     common.setup_impl_path()
     quiet_twisted()
     rng = ctx.rng
-    hists, tus, encs, rngs = [], [], [], []
+    hists, tus, encs, rngs, decs = [], [], [], [], []
     if ctx.replay:
         c = ctx.replay["case"]
         if c.get("kind") == "tu":
             tus.append(c)
+        elif c.get("kind") == "dec":
+            decs.append(c)
         else:
             hists.append(c)
     else:
@@ -619,7 +682,11 @@ def run(ctx):
             rngs.append({"kind": "rng", "seg": seg, "size": size, "off": off,
                          "len": rng.choice([0, 0, 1, seg, max(0, size - off), rng.randrange(0, 40)])})
 
+        for i in range(ctx.budget(400, 6000)):
+            decs.append(dec_case(rng))
+
     impl_h = [run_history(ctx, h) for h in hists]
+    impl_d = [dec_impl(ctx, c) for c in decs]
     impl_t = [tu_impl(ctx, c) for c in tus]
     impl_e = [enc_impl(c) for c in encs]
     impl_r = [rng_impl(c) for c in rngs]
@@ -632,7 +699,8 @@ def run(ctx):
 
     lines = [hist_line(h) for h in hists] + [tu_line(c) for c in tus] + \
             ["enc %d %d %s %d %d %d" % (c["k"], c["maxseg"], c["fmt"], c["dl"], c["off"], c["up"]) for c in encs] + \
-            ["rng %d %d %d %d" % (c["seg"], c["size"], c["off"], c["len"]) for c in rngs]
+            ["rng %d %d %d %d" % (c["seg"], c["size"], c["off"], c["len"]) for c in rngs] + \
+            ["dec %d %d %d %s" % (c["seg"], c["k"], c["segnum"], hx(bytes.fromhex(c["content"]))) for c in decs]
     model = ctx.model(lines)
     if model is not None:
         a = len(hists)
@@ -649,7 +717,9 @@ def run(ctx):
         ctx.compare("MutableFileVersion._do_update_update (start_segment, end_segment)",
                     [c for c, o in zip(rngs, impl_r) if not o.startswith("EXC")],
                     [o for o in impl_r if not o.startswith("EXC")],
-                    [m for m, o in zip(model[d:], impl_r) if not o.startswith("EXC")])
+                    [m for m, o in zip(model[d:d + len(rngs)], impl_r) if not o.startswith("EXC")])
+        ctx.compare("Retrieve._decode_blocks (length of the decoder output, segment after the size_to_use cut)",
+                    decs, impl_d, model[d + len(rngs):])
         for c, o in zip(rngs, impl_r):
             if o.startswith("EXC") != (c["off"] > c["size"]):
                 ctx.disagree("_do_update_update assertion (offset <= size)", c, o, "assert iff off > size")
